@@ -50,7 +50,8 @@ def shards(tier):
             out.append(dict(kind="history", seqs=seqs, prefix=prefix, tier=tier, first=None))
     # lengths at which an absolute error count k, stored as the rate k/L, comes back as int(rate * L) == k - 1 (47, 49),
     # with 48 as a control: index and adapters must agree on the tolerance there, too
-    for L, k in ((49, 1), (49, 2), (48, 1), (48, 2)) + (((47, 3),) if tier == "thorough" else ()):
+    # (37, 3), (41, 2), (61, 2): the product also truncates when it is formed in single precision
+    for L, k in ((49, 1), (49, 2), (48, 1), (48, 2), (37, 3), (41, 2), (61, 2)) + (((47, 3), (55, 2)) if tier == "thorough" else ()):
         for prefix in (True, False):
             out.append(dict(kind="rounding", len=L, k=k, prefix=prefix, tier=tier, first=None))
     return out
